@@ -5,7 +5,9 @@ import shutil
 import traceback
 
 from . import gen, hooks
-from .common import REPO, WORK, StepBudgetExceeded, use_repo
+from .common import REPO, WORK, StepBudgetExceeded, use_repo, canon
+
+_ALGO_CACHE = {}
 from .env import ProbedEnvironment
 
 _N = [0]
@@ -76,27 +78,39 @@ def build(case, d, tr, bound=None, permute_seed=None, shared=None):
 
     pairing = case['pairing']
     alg = case.get('alg') or {}
+    # An experiment loop creates its algorithm objects once and iterates over configurations:
+    # the scheduling-algorithm object is reused by later simulations of this process that ask
+    # for the same algorithm with the same parameters.
+    akey = (pairing, canon(alg))
+    algo = _ALGO_CACHE.get(akey)
     if pairing in ('batch', 'queue'):
         model = userext.InjectingBatchPlanning('batch', dm, extras, on_plan)
-        if pairing == 'batch':
+        if algo is None and pairing == 'batch':
             split = alg.get('resource_split')
             if split:
                 split = {k: tuple(v) for k, v in split.items()}
             algo = BatchProcessing(max_resource_partitions=alg.get('partitions', 1),
                                    min_resources_per_workflow=alg.get('min_resources', 3),
                                    resource_split=split)
-        else:
+        elif algo is None:
             algo = QueueProcessing()
     else:
         model = userext.StaticListPlanning('static', case['static'], dm, extras, on_plan,
                                            est_mode=case.get('static_est', 'duration'))
-        algo = DynamicSchedulingFromPlan() if pairing == 'dynamic' else GreedySchedulingFromPlan()
+        if algo is None:
+            algo = DynamicSchedulingFromPlan() if pairing == 'dynamic' \
+                else GreedySchedulingFromPlan()
+    if akey in _ALGO_CACHE:
+        tr.cnt['algorithm_object_reused'] += 1
+    _ALGO_CACHE[akey] = algo
     adv = case.get('adversary')
     advlog = []
     if adv:
         algo = userext.Adversary(algo, adv['profile'], random.Random(adv['seed']),
                                  adv.get('prob', 0.35), advlog)
-    # observe what the algorithm is asked and what it answers
+    # observe what the algorithm is asked and what it answers (a per-simulation proxy; the
+    # algorithm object itself may be shared with other simulations and is left untouched)
+    inner_algo = algo
     inner_run = algo.run
 
     def run_probe(cluster, clock, workflow_plan, existing_schedule, task_pool):
@@ -119,7 +133,7 @@ def build(case, d, tr, bound=None, permute_seed=None, shared=None):
         except Exception:
             pass
         return out
-    algo.run = run_probe
+    algo = userext.ProbeAlgo(inner_algo, run_probe)
 
     sim = S.Simulation(env, cfg, Telescope, planning_model=model, planning_algorithm='batch',
                        scheduling=algo, delay=dm, timestamp=0)
